@@ -241,6 +241,25 @@ def check_sizes(ctx, ht, rule, select=lambda f: True):
         if isinstance(s.value, ast.Name):
             defs = [n.value for n in ast.walk(s.func.node) if isinstance(n, ast.Assign) and len(n.targets) == 1
                     and U(n.targets[0]) == s.value.id]
+        # a formula over a local that is chosen in the arms of an `if` (padded_shape = [..] per geometry) stands for one
+        # formula per arm; products over a display are written out
+        from ..sizerules import expand_variants
+        from .. import norm as _norm
+        expanded = []
+        for d in defs:
+            needs = any(isinstance(c, ast.Call) and U(c.func).split('.')[-1] in ('prod', 'reduce') for c in ast.walk(d))
+            if not needs:
+                expanded.append(d)
+                continue
+            for v_ in expand_variants(s.func, d, reachable=fm.is_reachable):
+                v2 = _norm._Fold(lookup=None, pure=lambda e: True).visit(v_)
+                ast.fix_missing_locations(v2)
+                for x_ in ast.walk(v2):
+                    if not hasattr(x_, 'lineno'):
+                        x_.lineno = getattr(d, 'lineno', 0)
+                v2._sgz_stmt = enclosing_stmt(d)
+                expanded.append(v2)
+        defs = expanded
         for d in defs:
             res = ht.resolver(s)
             ev = RoleEval(P, s.func.module, lambda nm, res=res, d=d: None if isinstance(d, ast.Name) and nm == U(d) else res(nm))
@@ -249,7 +268,7 @@ def check_sizes(ctx, ht, rule, select=lambda f: True):
             if v is None:
                 raise AnalysisError('cannot normalise the data-size formula `%s` in %s' % (U(d)[:80], s.func.qualname))
             for pr in ev.problems:
-                ctx.fail(rule, s.func, enclosing_stmt(d) or s.stmt, pr, line=d.lineno)
+                ctx.fail(rule, s.func, getattr(d, '_sgz_stmt', None) or enclosing_stmt(d) or s.stmt, pr, line=d.lineno)
             forms.append((s, d, v, ev))
     dsk = P.const_value(P.modules['sgzconstants'], 'DISK_BLOCK_BYTES')
     if not isinstance(dsk, int):
@@ -264,7 +283,7 @@ def check_sizes(ctx, ht, rule, select=lambda f: True):
             ctx.ok(rule, s.func, label, 'data blocks = rate * prod(pad(count_k, blockshape_k)) / (8*%d)' % dsk,
                    sample={'normal_form': repr(v)})
         else:
-            ctx.fail(rule, s.func, enclosing_stmt(d) or s.stmt, 'data-section size `%s` normalises to %r, not to '
+            ctx.fail(rule, s.func, getattr(d, '_sgz_stmt', None) or enclosing_stmt(d) or s.stmt, 'data-section size `%s` normalises to %r, not to '
                      'rate*PAD[Z]*PAD[XL]*PAD[IL]/(8*%d): the header would state a different size than the blocks '
                      'written/addressed' % (U(d)[:60], v, dsk), line=d.lineno)
     # --- header array length
